@@ -106,6 +106,12 @@ func (c *Cluster) UpsertRegionHeartbeat(meta manifest.RegionMeta) error {
 	if meta.ID == 0 {
 		return ErrInvalidRegionID
 	}
+	// An empty end key means "unbounded"; otherwise the range must be non-empty.
+	// An inverted range would sort into the route index and shadow the region
+	// that really contains the keys following its start key.
+	if len(meta.EndKey) > 0 && bytes.Compare(meta.StartKey, meta.EndKey) >= 0 {
+		return fmt.Errorf("%w: region=%d start=%q end=%q", ErrInvalidRegionRange, meta.ID, meta.StartKey, meta.EndKey)
+	}
 
 	c.mu.Lock()
 	defer c.mu.Unlock()
